@@ -43,6 +43,7 @@ type c09Fix struct {
 	honest []c09Msg
 	host   []c09Msg
 	prop   c09Msg
+	tc     c09Msg // the collector leaves the block's view through a genuine timeout certificate
 }
 
 func multiOf(scheme string, parts ...[2]any) hotstuff.QuorumSignature { // (label ID, raw bytes)
@@ -76,6 +77,13 @@ func newC09Fix(n int, scheme string) *c09Fix {
 	for i := 1; i < n; i++ { // replicas 2..n
 		id := hotstuff.ID(i + 1)
 		f.honest = append(f.honest, c09Msg{name: fmt.Sprintf("vote(%d)", id), must: id, ev: vote(id, f.c.SignBlock(f.b, i)[0], f.b.Hash())})
+	}
+	{
+		v := f.b.View()
+		tc := hotstuff.NewTimeoutCert(f.c.Combine(f.c.SignBytes(v.ToBytes(), fix.Range(f.q)...)...), v)
+		f.tc = c09Msg{name: fmt.Sprintf("newview TC(v%d)", v), ev: func() any {
+			return hotstuff.NewViewMsg{ID: 3, SyncInfo: hotstuff.NewSyncInfoWith(tc), FromNetwork: true}
+		}}
 	}
 	byz := hotstuff.ID(n)
 	bi := n - 1
@@ -238,6 +246,10 @@ func c09Clique(r *ev.Reporter, f *c09Fix, hostMax int) int64 {
 		for _, bs := range hostSets {
 			m := append(append([]c09Msg{f.prop}, hs...), bs...)
 			jobs = append(jobs, job{m})
+			if len(bs) <= 1 {
+				// the same with a view change by timeout certificate at every position
+				jobs = append(jobs, job{append(append([]c09Msg(nil), m...), f.tc)})
+			}
 		}
 	}
 	var total int64
